@@ -53,6 +53,12 @@ pub struct SPlan {
     /// appended to the target of a reverse-proxied request (query strings, deeper paths)
     #[serde(default)]
     pub rp_suffix: String,
+    /// method and path of a ping request (empty = GET and the usual path): the markers and the
+    /// ping host answer whatever is asked, the speedtest and reverse-proxy paths included
+    #[serde(default)]
+    pub ping_method: String,
+    #[serde(default)]
+    pub ping_path: String,
 }
 
 const LISTEN: &str = "198.51.100.1:443";
@@ -155,6 +161,12 @@ impl Scenario for Services {
             seg: CutP::draw(&mut rng, 16 * 1024),
             payload_len: rng.size(0, 32 * 1024) as usize,
             rp_suffix: (*rng.pick(&["", "", "?q=how+much&page=2", "?", "/deeper/path.txt", "?a=%20b&c=d/e", ";v=1?x=y"])).to_string(),
+            ping_method: if rng.chance(1, 2) { String::new() } else { (*rng.pick(&["GET", "HEAD", "POST", "PUT", "OPTIONS", "DELETE"])).to_string() },
+            ping_path: if rng.chance(1, 2) {
+                String::new()
+            } else {
+                (*rng.pick(&["/", "/speed/1mb.bin", "/speed/upload.html", "/speed/", "/speed/100mb.bin", "/1mb.bin", "/upload.html", "/rp/socket", "/index.html?x=1", "/a/b/c"])).to_string()
+            },
         };
         to_plan(&plan)
     }
@@ -212,15 +224,17 @@ fn request_of(plan: &SPlan) -> (String, String, String, Vec<(String, String)>, V
     }
     let speed_sni = |via_main: bool| if via_main { MAIN } else { SPEED }.to_string();
     let prefix = |via_main: bool| if via_main { "/speed" } else { "" };
+    let ping_m = |d: &str| if plan.ping_method.is_empty() { d.to_string() } else { plan.ping_method.clone() };
+    let ping_p = |d: &str| if plan.ping_path.is_empty() { d.to_string() } else { plan.ping_path.clone() };
     match &plan.svc {
-        Svc::PingHost => (PING.into(), "GET".into(), "/anything".into(), headers, vec![]),
+        Svc::PingHost => (PING.into(), ping_m("GET"), ping_p("/anything"), headers, vec![]),
         Svc::PingMarker(k) => {
             if *k == 0 {
                 headers.push(("x-ping".into(), "1".into()));
             } else {
                 headers.push(("sec-fetch-mode".into(), "navigate".into()));
             }
-            (MAIN.into(), "GET".into(), "/".into(), headers, vec![])
+            (MAIN.into(), ping_m("GET"), ping_p("/"), headers, vec![])
         }
         Svc::Download(n, via) => (speed_sni(*via), "GET".into(), format!("{}/{}mb.bin", prefix(*via), n), headers, vec![]),
         Svc::Upload(cl, send, via) => {
